@@ -53,6 +53,11 @@ def check(run, cases=None):
         PtCls = B.CLS_OF['R2' if B.DIM[k] == 2 else 'R3']
         d = PC.delta_array(c)
         ident = type(a).identity()
+        e0 = type(a).identity()
+        e0 += d                        # `+=` on a pose obtained from identity() must not affect later identity() results
+        ident_again = type(a).identity()
+        if not np.array_equal(np.array(ident_again), np.array(ident)) or not np.array_equal(np.array(ident), np.array(type(a).identity().copy())):
+            run.violation(dict(k=k, op='identity-after-iadd'), 'identity() differs after `e = identity(); e += delta`: %r' % (np.asarray(ident_again).tolist(),), dict(case=c))
 
         def ipl():
             x = a.copy()
